@@ -43,12 +43,32 @@ pub fn load_known() -> Vec<Known> {
     out
 }
 
+/// glob match: '*' matches any (possibly empty) substring
 fn class_matches(pattern: &str, class: &str) -> bool {
-    if let Some(p) = pattern.strip_suffix('*') {
-        class.starts_with(p)
-    } else {
-        pattern == class
+    let parts: Vec<&str> = pattern.split('*').collect();
+    if parts.len() == 1 {
+        return pattern == class;
     }
+    let mut pos = 0usize;
+    for (i, p) in parts.iter().enumerate() {
+        if p.is_empty() {
+            continue;
+        }
+        if i == 0 {
+            if !class.starts_with(p) {
+                return false;
+            }
+            pos = p.len();
+        } else if i == parts.len() - 1 {
+            return class.len() >= pos + p.len() && class.ends_with(p);
+        } else {
+            match class[pos..].find(p) {
+                Some(k) => pos += k + p.len(),
+                None => return false,
+            }
+        }
+    }
+    true
 }
 
 pub struct Run {
@@ -65,6 +85,7 @@ impl Run {
         let tier = std::env::var("VERIF_TIER").unwrap_or_else(|_| "quick".into());
         let tier = if tier == "thorough" { "thorough".to_string() } else { "quick".to_string() };
         let seed = std::env::var("VERIF_SEED").ok().and_then(|s| s.parse::<i64>().ok()).unwrap_or(0);
+        *crate::watchdog::PROP.lock().unwrap() = prop.to_string();
         Run {
             prop: prop.into(),
             tier,
